@@ -540,7 +540,7 @@ theorem pres_handleLogon (g0 : G1) (s : Sess) (m : InMsg) (hk : isAdminKind (kin
     | none =>
       simp only []
       generalize hs3 : (if ((if s2.cfg.initiator = true then false else s2.cfg.resetOnLogon) || logonResetFlag m && !s2.sentReset) = true
-          then s2.storeReset else s2) = s3
+          then dropAndReset s2 else s2) = s3
       have h3 : Pres g0 s s3 := by rw [← hs3]; pres_peel
       have hv2 := (verifySelect_ext s3 m false true false (Or.inl rfl)).pres g0
       generalize verifySelect s3 m false true false = r2 at hv2
